@@ -14,7 +14,7 @@ import (
 
 func init() {
 	register(&Pack{ID: "C20", Run: runC20, Meta: core.Meta{
-		Level: "proof",
+		Level:       "proof",
 		Explanation: "For every exported function of internal/pipe the term of the value returned by the returned closure is computed from SSA (engine T) and must be exactly f_N(...f_2(f_1(a))...): N dynamic calls, the k-th callee being the k-th parameter of the outer function (captured cell store-once), innermost argument the closure's own parameter, no other call, loop, store or branch. Signature chain f_k: T_{k-1} -> T_k over pairwise distinct type parameters is checked on go/types, and for every adjacent transposition of two functions a variant of the source is built in memory and must be rejected by the type checker (compile-fail witness). The decision is complete for these loop-free total functions.",
 		RuleText:    "one obligation per (function, rule); rules: composition-term, closure-shape, signature-chain, transposition-rejected",
 		TrustedBase: []string{"go/types", "go/ssa construction", "Go call semantics (arguments evaluated before the call, a call applies its callee once)"},
